@@ -241,6 +241,9 @@ const smtPreamble = `(declare-sort Str 0)
 (declare-fun str_contains (Str Str) Bool)
 (declare-fun str_sub (Str Int Int) Str)
 (declare-fun str_at (Str Int) Int)
+(declare-fun str_zeros (Int) Str)
+(declare-fun str_set (Str Int Int) Str)
+(declare-fun str_splice (Str Int Str) Str)
 (declare-fun bytes_str ((Array Int Int) Int) Str)
 (declare-fun str_bytes (Str) (Array Int Int))
 (declare-fun zeroarr_Str () (Array Int Str))
@@ -255,6 +258,10 @@ type condAxiom struct {
 }
 
 var condAxioms = []condAxiom{
+	{"bytes_str", "(assert (forall ((a (Array Int Int)) (n Int) (i Int)) (! (=> (and (<= 0 i) (< i n)) (= (str_at (bytes_str a n) i) (select a i))) :pattern ((str_at (bytes_str a n) i)))))\n"},
+	{"str_zeros", "(assert (forall ((n Int)) (! (=> (>= n 0) (= (str_len (str_zeros n)) n)) :pattern ((str_zeros n)))))\n(assert (forall ((n Int) (i Int)) (! (= (str_at (str_zeros n) i) 0) :pattern ((str_at (str_zeros n) i)))))\n"},
+	{"str_set", "(assert (forall ((s Str) (i Int) (b Int)) (! (= (str_len (str_set s i b)) (str_len s)) :pattern ((str_set s i b)))))\n(assert (forall ((s Str) (i Int) (b Int) (j Int)) (! (= (str_at (str_set s i b) j) (ite (= j i) b (str_at s j))) :pattern ((str_at (str_set s i b) j)))))\n(assert (forall ((s Str) (i Int) (b Int) (a Int) (c Int)) (! (=> (or (< i a) (>= i c)) (= (str_sub (str_set s i b) a c) (str_sub s a c))) :pattern ((str_sub (str_set s i b) a c)))))\n"},
+	{"str_splice", "(assert (forall ((s Str) (o Int) (t Str)) (! (= (str_len (str_splice s o t)) (str_len s)) :pattern ((str_splice s o t)))))\n(assert (forall ((s Str) (o Int) (t Str)) (! (=> (and (<= 0 o) (<= (+ o (str_len t)) (str_len s))) (= (str_sub (str_splice s o t) o (+ o (str_len t))) t)) :pattern ((str_splice s o t)))))\n(assert (forall ((s Str) (o Int) (t Str) (j Int)) (! (=> (or (< j o) (>= j (+ o (str_len t)))) (= (str_at (str_splice s o t) j) (str_at s j))) :pattern ((str_at (str_splice s o t) j)))))\n(assert (forall ((s Str) (o Int) (t Str) (a Int) (c Int)) (! (=> (or (<= c o) (>= a (+ o (str_len t)))) (= (str_sub (str_splice s o t) a c) (str_sub s a c))) :pattern ((str_sub (str_splice s o t) a c)))))\n"},
 	{"str_sub", "(assert (forall ((s Str) (a Int) (b Int)) (! (=> (and (<= 0 a) (<= a b) (<= b (str_len s))) (= (str_len (str_sub s a b)) (- b a))) :pattern ((str_sub s a b)))))\n(assert (forall ((s Str)) (! (= (str_sub s 0 (str_len s)) s) :pattern ((str_sub s 0 (str_len s))))))\n(assert (= (str_len str_empty) 0))\n(assert (forall ((s Str)) (! (>= (str_len s) 0) :pattern ((str_len s)))))\n(assert (forall ((s Str)) (! (=> (= (str_len s) 0) (= s str_empty)) :pattern ((str_len s)))))\n"},
 	{"zeroarr_Str", "(assert (forall ((i Int)) (! (= (select zeroarr_Str i) str_empty) :pattern ((select zeroarr_Str i)))))\n"},
 	{"str_len", "(assert (= (str_len str_empty) 0))\n(assert (forall ((s Str)) (! (>= (str_len s) 0) :pattern ((str_len s)))))\n(assert (forall ((s Str)) (! (=> (= (str_len s) 0) (= s str_empty)) :pattern ((str_len s)))))\n"},
